@@ -104,6 +104,9 @@ func suNewFan(a kv) *suFan {
 		mn, mx := 40, 200
 		cfg.MinPwm, cfg.MaxPwm = &mn, &mx
 	}
+	if sp := a.optInt("startpwm"); sp != nil {
+		cfg.StartPwm = sp
+	}
 	if a.bool("cfgmap", false) {
 		m := map[int]int{0: 0, 64: 64, 128: 128, 192: 192, 255: 255}
 		cfg.PwmMap = &m
@@ -172,12 +175,12 @@ func suClassify(fan string, from int64) (writes int, sweep bool, measure bool, f
 			}
 		}
 	}
-	// measurement: a run of >= 3 strictly ascending values (the staircase over distinct targets)
+	// measurement: a run of >= 4 strictly ascending values (the staircase over distinct targets)
 	run := 1
 	for i := 1; i < len(vals); i++ {
 		if vals[i] > vals[i-1] {
 			run++
-			if run >= 3 {
+			if run >= 4 {
 				measure = true
 			}
 		} else {
@@ -289,6 +292,10 @@ func init() {
 			w, sweep, measure, _, _ := suClassify(f.id, from)
 			_ = w
 			return fmt.Sprintf("res=%s sweep=%s measure=%s %s", res, b01(sweep), b01(measure), suStored(f))
+		case "su.dev":
+			// device registers of a fan (not part of the C15 model: used by C03 to see what a failed start left behind)
+			f := suFans[a.str("fan", "f1")]
+			return fmt.Sprintf("pwm=%d mode=%d", f.dev.Pwm, f.dev.Mode)
 		case "su.reset":
 			f := suFans[a.str("fan", "f1")]
 			p := persistence.NewPersistence(suDb)
